@@ -7,6 +7,7 @@ import (
 	"strings"
 
 	"github.com/TimothyStiles/poly/seqhash"
+	"github.com/TimothyStiles/poly/transform"
 	"lukechampine.com/blake3"
 
 	"verif/internal/mon"
@@ -347,6 +348,19 @@ func runSeqhash(w *mon.W, c05 bool) {
 					w.Violation(id, fmt.Sprintf("the reverse complement of %q hashes differently as a double-stranded molecule (%s)", clip(s, 60), flagName(circ, ds)), map[string]any{"sequence": s})
 				}
 				w.Add("explicit_reverse_complement_calls", 1)
+				// the same through the library's own reverse complement (what a user would pass in); the
+				// string must also still be that reverse complement after Hash has run
+				var lib string
+				if mon.Try(func() { lib = transform.ReverseComplement(s) }) == "" && len(lib) == len(s) {
+					want := oracle.MustRevComp(s)
+					if hl := shJudge(w, id, lib, "DNA", circ, ds, false); hl != h && hl != "" && lib == want {
+						w.Violation(id, fmt.Sprintf("transform.ReverseComplement(%q) hashes differently from the sequence itself as a double-stranded molecule (%s)", clip(s, 60), flagName(circ, ds)), map[string]any{"sequence": s})
+					}
+					if lib != want {
+						w.Violation(id, fmt.Sprintf("the string transform.ReverseComplement(%q) returned reads %q after seqhash.Hash was called on it; the reverse complement is %q", clip(s, 60), clip(lib, 60), clip(want, 60)), map[string]any{"sequence": s})
+					}
+					w.Add("library_reverse_complement_calls", 1)
+				}
 			}
 			if hc := shJudge(w, id, randCase(r, strings.ToUpper(s), 0.5), "DNA", circ, ds, false); hc != h && hc != "" {
 				w.Violation(id, fmt.Sprintf("case change alters the seqhash of %q (%s)", clip(s, 60), flagName(circ, ds)), map[string]any{"sequence": s})
